@@ -2,8 +2,7 @@
    proofs in IRCP.RoundP, IRCP.ParseP and IRCP.FrameP.  The framing model (Frame.v: split at LF,
    strip one CR, the 2000-byte limit) is the one the extracted program runs on every raw-byte
    trace against the real LinesCodec; the CRLF termination of emitted lines is decided per run
-   by the CRLF oracle (L2).  The agreement of the tokenizer with the grammar for lines with arbitrary
-   blank runs is decided per run against an independent statement of the grammar (L2). *)
+   by the CRLF oracle (L2). *)
 From IRC Require Import Str Wild Glob Parse Reply State Handlers Step.
 From IRC Require Import Frame.
 From IRCP Require Import RoundP ParseP FrameP.
@@ -23,6 +22,23 @@ Theorem C13_serialise_parse : forall m src,
   tokenize (to_string_with_source m src) =
   inl {| m_source := Some src; m_command := m_command m; m_params := m_params m |}.
 Proof. exact roundtrip. Qed.
+
+(* the grammar itself, with blanks of every kind: any leading (Unicode) blanks, optional ':'source
+   and a blank run, the command, middle parameters each preceded by a run of ASCII blanks of any
+   length, then either a blank run, ':' and ANY trailing text, or only trailing blanks - is
+   tokenised to exactly (source, command, middles [++ trailing]) *)
+Theorem C13_grammar_complete : forall lead (src : option (str * str)) cmd mids (trailing : option (str * str)) tailws,
+  forallb is_unicode_ws lead = true ->
+  match src with Some (sn, sep0) => nows sn /\ validate_source sn = true /\ ws_run sep0 | None => True end ->
+  mid_ok cmd -> (src = None -> match cmd with c :: _ => is_unicode_ws c = false | [] => True end) ->
+  Forall sep_tok_ok mids ->
+  match trailing with Some (sep, _) => ws_run sep /\ tailws = [] | None => forallb is_ascii_ws tailws = true end ->
+  tokenize (lead ++ match src with Some (sn, sep0) => (c_colon :: sn) ++ sep0 | None => [] end
+                 ++ cmd ++ spw mids
+                 ++ match trailing with Some (sep, tr) => sep ++ c_colon :: tr | None => tailws end)
+  = inl {| m_source := option_map fst src; m_command := cmd;
+           m_params := map snd mids ++ match trailing with Some (_, tr) => [tr] | None => [] end |}.
+Proof. exact grammar_complete. Qed.
 
 (* hence a relayed command (PRIVMSG, NOTICE, TOPIC, NICK, INVITE, WALLOPS are relayed through
    to_string_with_source), re-parsed by its receiver, has the command and parameters the
@@ -100,6 +116,7 @@ End C13.
 
 Print Assumptions C13_tokens_wellformed.
 Print Assumptions C13_serialise_parse.
+Print Assumptions C13_grammar_complete.
 Print Assumptions C13_relay_reparses.
 Print Assumptions C13_unknown_is_421.
 Print Assumptions C13_too_few_is_461.
